@@ -18,6 +18,7 @@ func init() {
 			"the distinct rule (key = (label, value)); drop/keep delete exactly the selected labels",
 			"PV-ROLE label_format rename: Get/Set/Delete of one pair happen in one loop iteration",
 			"PV-ROLE drop/keep value matchers are built in the label flavour; LP-ERRPATH for every stage that flags __error__",
+			"LP-PIPE entryIterator.Next: nothing but the filters' verdicts removes a record",
 		},
 		NotDecided: []string{"'in time order' across streams depends on the storage delivering records in time order (C04)", "count equality with the number of matches is C01"},
 		Rules: func(r *Run) {
@@ -36,6 +37,7 @@ func init() {
 			ruleLabelFormatDirection(r)                                                                                                                                                               // a renamed label stays: the source is deleted in the iteration that renamed it
 			ruleErrorPathKeepsLine(r, []string{"DurationLabelFilter", "BytesLabelFilter", "NumberLabelFilter", "IPLabelFilter", "JSONExtractor", "LogfmtExtractor", "UnpackExtractor", "LineFormat"}) // min(L, N) entries: a stage that fails on a line flags it and keeps it
 			ruleDropKeepMatchers(r)
+			ruleLPPipe(r)
 		},
 	})
 }
